@@ -470,13 +470,18 @@ SEQ_ITEMS = ['!!python/tuple [*x]', '!!python/object/apply:vf_shapes.make_factor
              '!!python/object/new:vf_shapes.NewArgs [&q [!!python/tuple [*q]], 2]',
              # an anchored constructed object used as a key / set member whose own state refers back to it: buildable
              '{? &n !!python/object:vf_shapes.Plain {me: *n} : 1}', '!!set {? &p !!python/object:vf_shapes.Plain {me: *p, other: *x}}',
-             '{? &u !!python/tuple [1, s] : *u}']
+             '{? &u !!python/tuple [1, s] : *u}',
+             # a merge key whose value leads back to the mapping that holds it: merging a mapping into itself adds nothing,
+             # merging an enclosing mapping makes the inner one contain itself - built, never an endless recursion
+             '&b {<<: *b, k: v}', '&b {k: v, <<: &c {<<: [*b], j: w}}', '&b {k: v, n: {<<: *b}}']
 # absolute expectations for some items (index -> outcome class when loaded alone after the prelude, optional verifier)
 SEQ_EXPECT = {5: ('ok', lambda item: item[1] is item), 6: ('ok', lambda item: item['self'] is item), 7: ('ok', lambda item: item[0][0] is item), 8: ('ok', lambda item: item.me is item),
               14: ('ok', lambda item: item[0][0] is item), 16: ('ConstructorError', None), 17: ('ConstructorError', None),
               19: ('ok', lambda item: len(item) == 1 and list(item)[0].me is list(item)[0]),
               20: ('ok', lambda item: len(item) == 1 and list(item)[0].me is list(item)[0]),
-              21: ('ok', lambda item: list(item.values())[0] is list(item)[0])}
+              21: ('ok', lambda item: list(item.values())[0] is list(item)[0]),
+              22: ('ok', lambda item: item == {'k': 'v'}), 23: ('ok', lambda item: dict(item) == {'k': 'v', 'j': 'w'}),
+              24: ('ok', lambda item: sorted(item) == ['k', 'n'] and sorted(item['n']) == ['k', 'n'] and item['n']['n'] is item['n'] and item['n']['k'] == 'v')}
 _ALONE = {}
 
 
